@@ -516,3 +516,230 @@ Corollary load_raw_length rec ns t bs x : load rec ns t bs = Some x ->
 Proof.
   intros H. apply load_raw_inside in H. revert H. apply tree_all_impl. intros y. apply slice_of_length.
 Qed.
+
+(* ---- B2: fuel and depth ---- *)
+(* scanChildren with an explicit fuel for the field loop (scan = scan_f (S (length bs))) *)
+Definition scan_f (f : nat) (child : Z -> list Z -> option (tree * list Z)) (t : Z) (bs : list Z)
+  : option (Z * Z * list (pkey * tree) * list Z) :=
+  if t =? T_STRUCT then
+    match scan_fields child f bs with
+    | Some (cs, r) => Some (0, 0, cs, r)
+    | None => None
+    end
+  else if (t =? T_LIST) || (t =? T_SET) then
+    match bs with
+    | et :: r =>
+      match dec_count r with
+      | Some (n, r2) => match scan_elems child n 0 et r2 with Some (cs, r3) => Some (et, 0, cs, r3) | None => None end
+      | None => None
+      end
+    | [] => None
+    end
+  else if t =? T_MAP then
+    match bs with
+    | kt :: et :: r =>
+      if valid_type kt && valid_type et then
+        match dec_count r with
+        | Some (n, r2) => match scan_pairs child n kt et r2 with Some (cs, r3) => Some (et, kt, cs, r3) | None => None end
+        | None => None
+        end
+      else None
+    | _ => None
+    end
+  else None.
+
+Lemma scan_is_scan_f child t bs : scan child t bs = scan_f (S (length bs)) child t bs.
+Proof. reflexivity. Qed.
+
+Section LoadExt.
+  Variables child child' : Z -> list Z -> option (tree * list Z).
+  Hypothesis child'_le : forall t b x r, child' t b = Some (x, r) -> (length r <= length b)%nat.
+
+  (* a field = type byte + 2 id bytes + child: the child's buffer is 3 bytes shorter, its remainder no longer *)
+  Lemma scan_fields_ext_fuel : forall f f' bs, (length bs < f)%nat -> (length bs < f')%nat ->
+    (forall t b, (length b < length bs)%nat -> child t b = child' t b) ->
+    scan_fields child f bs = scan_fields child' f' bs.
+  Proof.
+    induction f as [|f IH]; intros f' bs Hf Hf' Hext; [lia|]. destruct f' as [|f']; [lia|]. cbn [scan_fields].
+    destruct bs as [|t r0]; [reflexivity|].
+    destruct (t =? 0); [reflexivity|].
+    destruct (take 2 r0) as [[idb r2]|] eqn:E2; [|reflexivity]. apply take_len in E2. cbn [length] in *.
+    rewrite (Hext t r2) by lia.
+    destruct (child' t r2) as [[c r3]|] eqn:E3; [|reflexivity]. apply child'_le in E3.
+    rewrite (IH f' r3); [reflexivity|lia|lia|]. intros t0 b Hb. apply Hext. lia.
+  Qed.
+
+  Lemma scan_elems_ext : forall n i et bs, (forall t b, (length b <= length bs)%nat -> child t b = child' t b) ->
+    scan_elems child n i et bs = scan_elems child' n i et bs.
+  Proof.
+    induction n as [|n IH]; intros i et bs Hext; cbn [scan_elems]; [reflexivity|].
+    rewrite (Hext et bs) by lia.
+    destruct (child' et bs) as [[c r1]|] eqn:E1; [|reflexivity]. apply child'_le in E1.
+    rewrite (IH (i + 1) et r1); [reflexivity|]. intros t0 b Hb. apply Hext. lia.
+  Qed.
+
+  Lemma scan_pairs_ext : forall n kt et bs, (forall t b, (length b <= length bs)%nat -> child t b = child' t b) ->
+    scan_pairs child n kt et bs = scan_pairs child' n kt et bs.
+  Proof.
+    induction n as [|n IH]; intros kt et bs Hext; cbn [scan_pairs]; [reflexivity|].
+    destruct (read_key kt bs) as [[k r0]|] eqn:E0; [|reflexivity]. apply read_key_suffix in E0. destruct E0 as [_ L0].
+    rewrite (Hext et r0) by lia.
+    destruct (child' et r0) as [[c r1]|] eqn:E1; [|reflexivity]. apply child'_le in E1.
+    rewrite (IH kt et r1); [reflexivity|]. intros t0 b Hb. apply Hext. lia.
+  Qed.
+
+  (* scanChildren: any two field-loop fuels above |bs|, any two handleChild that agree on STRICTLY shorter buffers *)
+  Lemma scan_f_ext_fuel f f' t bs : (length bs < f)%nat -> (length bs < f')%nat ->
+    (forall t b, (length b < length bs)%nat -> child t b = child' t b) ->
+    scan_f f child t bs = scan_f f' child' t bs.
+  Proof.
+    intros Hf Hf' Hext. unfold scan_f. destruct (t =? T_STRUCT).
+    { rewrite (scan_fields_ext_fuel f f' bs Hf Hf' Hext). reflexivity. }
+    destruct ((t =? T_LIST) || (t =? T_SET)).
+    { destruct bs as [|et0 r0]; [reflexivity|].
+      destruct (dec_count r0) as [[n r2]|] eqn:Ec; [|reflexivity]. apply dec_count_len in Ec. destruct Ec as (Lc & _ & _).
+      rewrite (scan_elems_ext n 0 et0 r2); [reflexivity|]. intros t0 b Hb. apply Hext. cbn [length]. lia. }
+    destruct (t =? T_MAP); [|reflexivity].
+    destruct bs as [|kt0 [|et0 r0]]; try reflexivity.
+    destruct (valid_type kt0 && valid_type et0); [|reflexivity].
+    destruct (dec_count r0) as [[n r2]|] eqn:Ec; [|reflexivity]. apply dec_count_len in Ec. destruct Ec as (Lc & _ & _).
+    rewrite (scan_pairs_ext n kt0 et0 r2); [reflexivity|]. intros t0 b Hb. apply Hext. cbn [length]. lia.
+  Qed.
+End LoadExt.
+
+(* the field loop of scanChildren does not depend on its fuel (for a handleChild whose remainders are no longer than
+   its inputs): S (length bs), the fuel scan gives it, is enough *)
+Theorem scan_fields_fuel_stable child :
+  (forall t b x r, child t b = Some (x, r) -> (length r <= length b)%nat) ->
+  forall f f' bs, (length bs < f)%nat -> (length bs < f')%nat -> scan_fields child f bs = scan_fields child f' bs.
+Proof. intros Hle f f' bs Hf Hf'. apply scan_fields_ext_fuel; auto. Qed.
+
+Lemma scan_f_nil f child t : scan_f (S f) child t [] = None.
+Proof.
+  unfold scan_f. destruct (t =? T_STRUCT); [reflexivity|]. destruct ((t =? T_LIST) || (t =? T_SET)); [reflexivity|].
+  destruct (t =? T_MAP); reflexivity.
+Qed.
+
+Lemma scan_nil child t : scan child t [] = None.
+Proof. rewrite scan_is_scan_f. apply scan_f_nil. Qed.
+
+Lemma load_child_nil_container d rec ns t : rec && is_container t = true -> load_child d rec ns t [] = None.
+Proof.
+  intros Hc. rewrite load_child_unfold, Hc. destruct d; [reflexivity|]. destruct ns.
+  - rewrite scan_nil. reflexivity.
+  - destruct (skip_go t []); [|reflexivity]. cbv zeta. rewrite scan_nil. reflexivity.
+Qed.
+
+(* nesting: a child lives in a buffer at least 3 bytes shorter than its parent's, so the depth fuel |bs| is enough and
+   every larger one gives the same answer *)
+Theorem load_child_depth_stable : forall d d' rec ns t bs, (length bs <= d)%nat -> (length bs <= d')%nat ->
+  load_child d rec ns t bs = load_child d' rec ns t bs.
+Proof.
+  induction d as [|d IH]; intros d' rec ns t bs Hd Hd'.
+  - destruct bs; [|cbn [length] in Hd; lia].
+    destruct (rec && is_container t) eqn:Hc.
+    + rewrite !load_child_nil_container by assumption. reflexivity.
+    + rewrite (load_child_unfold 0), (load_child_unfold d'), Hc. reflexivity.
+  - destruct d' as [|d'].
+    + destruct bs; [|cbn [length] in Hd'; lia].
+      destruct (rec && is_container t) eqn:Hc.
+      * rewrite !load_child_nil_container by assumption. reflexivity.
+      * rewrite (load_child_unfold (S d)), (load_child_unfold 0), Hc. reflexivity.
+    + rewrite (load_child_unfold (S d)), (load_child_unfold (S d')).
+      destruct (rec && is_container t); [|reflexivity].
+      assert (E : scan (load_child d rec ns) t bs = scan (load_child d' rec ns) t bs).
+      { rewrite !scan_is_scan_f. apply scan_f_ext_fuel; [apply load_child_le|lia|lia|].
+        intros t0 b Hb. apply IH; lia. }
+      rewrite E. reflexivity.
+Qed.
+
+(* ---- fuel-explicit copy of Load: ONE field-loop fuel f for every struct, depth fuel d ---- *)
+Fixpoint load_child_f (f : nat) (d : nat) (rec ns : bool) (t : Z) (bs : list Z) {struct d} : option (tree * list Z) :=
+  if rec && is_container t then
+    match d with
+    | O => None
+    | S d' =>
+      if ns then
+        match scan_f f (load_child_f f d' rec ns) t bs with
+        | Some (et, kt, cs, rest) => Some (T t et kt [] cs, rest)
+        | None => None
+        end
+      else
+        match skip_go t bs with
+        | None => None
+        | Some rest0 =>
+          let raw := firstn (length bs - length rest0) bs in
+          match scan_f f (load_child_f f d' rec ns) t bs with
+          | Some (et, kt, cs, rest) => Some (T t (hdr_et t raw) (hdr_kt t raw) raw cs, rest)
+          | None => None
+          end
+        end
+    end
+  else
+    match skip_go t bs with
+    | None => None
+    | Some rest => Some (leaf_of t (firstn (length bs - length rest) bs), rest)
+    end.
+
+Definition load_f (f d : nat) (rec ns : bool) (t : Z) (bs : list Z) : option tree :=
+  match scan_f f (load_child_f f d rec ns) t bs with
+  | Some (et, kt, cs, _) => Some (T t (hdr_et t bs) (hdr_kt t bs) bs cs)
+  | None => None
+  end.
+
+Lemma load_child_f_unfold f d rec ns t bs : load_child_f f d rec ns t bs =
+  if rec && is_container t then
+    match d with
+    | O => None
+    | S d' =>
+      if ns then
+        match scan_f f (load_child_f f d' rec ns) t bs with
+        | Some (et, kt, cs, rest) => Some (T t et kt [] cs, rest)
+        | None => None
+        end
+      else
+        match skip_go t bs with
+        | None => None
+        | Some rest0 =>
+          let raw := firstn (length bs - length rest0) bs in
+          match scan_f f (load_child_f f d' rec ns) t bs with
+          | Some (et, kt, cs, rest) => Some (T t (hdr_et t raw) (hdr_kt t raw) raw cs, rest)
+          | None => None
+          end
+        end
+    end
+  else
+    match skip_go t bs with
+    | None => None
+    | Some rest => Some (leaf_of t (firstn (length bs - length rest) bs), rest)
+    end.
+Proof. destruct d; reflexivity. Qed.
+
+(* same depth fuel, any field-loop fuel above the length of the buffer: the model's handleChild *)
+Lemma load_child_f_eq : forall d f rec ns t bs, (length bs < f)%nat ->
+  load_child_f f d rec ns t bs = load_child d rec ns t bs.
+Proof.
+  induction d as [|d IH]; intros f rec ns t bs Hf; rewrite load_child_f_unfold, load_child_unfold; [reflexivity|].
+  destruct (rec && is_container t); [|reflexivity].
+  assert (E : scan_f f (load_child_f f d rec ns) t bs = scan (load_child d rec ns) t bs).
+  { rewrite scan_is_scan_f. apply scan_f_ext_fuel; [apply load_child_le|lia|lia|].
+    intros t0 b Hb. apply IH. lia. }
+  rewrite E. reflexivity.
+Qed.
+
+(* every field-loop fuel above |bs| and every depth fuel >= |bs| give the model's Load: a None of load is never
+   "out of fuel" *)
+Theorem load_total f d rec ns t bs : (length bs < f)%nat -> (length bs <= d)%nat ->
+  load_f f d rec ns t bs = load rec ns t bs.
+Proof.
+  intros Hf Hd. unfold load_f, load.
+  assert (E : scan_f f (load_child_f f d rec ns) t bs = scan (load_child (length bs) rec ns) t bs).
+  { rewrite scan_is_scan_f. apply scan_f_ext_fuel; [apply load_child_le|lia|lia|].
+    intros t0 b Hb. rewrite load_child_f_eq by lia. apply load_child_depth_stable; lia. }
+  rewrite E. reflexivity.
+Qed.
+
+Corollary load_fuel_independent f f' d d' rec ns t bs :
+  (length bs < f)%nat -> (length bs < f')%nat -> (length bs <= d)%nat -> (length bs <= d')%nat ->
+  load_f f d rec ns t bs = load_f f' d' rec ns t bs.
+Proof. intros. rewrite !load_total by assumption. reflexivity. Qed.
